@@ -20,7 +20,7 @@ Left(S2, ev) ==       \* the state the real converter left behind
 Step(ev) ==
   CASE ev.ev = "reset" -> S' = Init(IF ev.take < 0 THEN Unlimited ELSE ev.take, ev.hr)
     [] ev.ev = "fruit" ->
-         LET r == Fruit(S, ev.x, ev.t, ev.off)
+         LET r == Fruit(S, ev.x, ev.t, ev.off, ev.td)
          IN S' = r.S /\ r.off = ev.off /\ ev.nested = 1 /\ Left(r.S, ev)
     [] ev.ev = "stream" ->
          LET S2 == Stream(S, ev.x, ev.t, ev.lastctrlx, ev.evs)
